@@ -94,7 +94,8 @@ func grammarFor(tier string) *Grammar {
 	g.Roots = []string{"query", "mutation"}
 	g.VarModes = []int{VarGiven, VarDefault, VarAbsent, VarNull}
 	g.Fields = map[string][]string{
-		"Query": {"str", "arg", "t", "targ", "node", "u", "__typename"}, "Mutation": {"m1", "m3"},
+		"Query": {"str", "arg", "t", "targ", "node", "u", "rep", "__typename"}, "Mutation": {"m1", "m3"},
+		"Rep": {"old", "rows", "newFoo", "new_foo"}, "Row": {"id"},
 		"T": {"id", "name", "kid", "peer", "u", "__typename"}, "S": {"id", "peer"}, "Node": {"id", "__typename"},
 		"Named": {"name"}, "Deep": {"peer"}, "U": {"__typename"}}
 	g.Alias = map[string]bool{"Query.str": true, "T.id": true}
